@@ -331,7 +331,7 @@ class Gen:
                 rec.name = "%s%s%d" % (self.prefix, "S" if kw == "struct" else "U", self.nrec)
             self.nrec += 1
         x = self.r.random()
-        if x < self.cfg["p_packed"]:
+        if x < self.cfg["p_packed"] and not (in_packed and self.cfg.get("no_packed_in_packed_ctx", True)):
             rec.packed = True
         elif x < self.cfg["p_packed"] + self.cfg["p_aligned"] and not in_packed:
             rec.aligned = self.r.choice([2, 4, 8, 16, 32])
